@@ -43,7 +43,7 @@ SOLVER_LEAVES = ('qacc', 'qfrc_constraint', 'efc_force', 'qacc_warmstart', 'qvel
                  'qfrc_smooth', 'qacc_smooth', 'act_dot', 'ten_velocity', 'actuator_velocity', 'subtree_linvel',
                  'subtree_angmom', 'qfrc_gravcomp', 'qfrc_fluid')
 
-FINDINGS = bool(os.environ.get('C44_FINDINGS'))   # include sub-domains excluded because of reported findings
+FINDINGS = bool(os.environ.get('C44_FINDINGS'))   # developer option only: run without the exclusions below
 
 STATE_COMPONENTS = [  # documented order (mjtState bit i) -> mjData field
     ('TIME', 'time'), ('QPOS', 'qpos'), ('QVEL', 'qvel'), ('ACT', 'act'), ('HISTORY', 'history'),
@@ -490,7 +490,7 @@ RULE = ('models from vf.gen_mjx.models. (A) per model a batch of 3-6 states (odd
 ASSUMPTIONS = ['put_data/get_data/make_data operate on mujoco.MjModel/MjData of the installed wheel (3.13.0); the C state API '
                'reference is the tree engine, guarded by the model-array skew check',
                'placeholder values in unused contact slots (dist, geom ids) are not part of the make_data/put_data comparison',
-               'sub-domains excluded because of reported candidate findings (C44_FINDINGS=1 re-enables): ne/nf/nl after get_data '
+               'sub-domains excluded by construction and probed on every run by vf/mjx_findings.py (KNOWN-FINDING F8 F9 F19 F20 F22 F25): ne/nf/nl after get_data '
                '(static slot counts), data with an active contact at 0 < dist < margin (dropped by get_data), data with constraint rows whose '
                'Jacobian is exactly zero (dropped by get_data), ten_J when a structural entry is exactly zero (values shifted by get_data)']
 
@@ -498,6 +498,11 @@ ASSUMPTIONS = ['put_data/get_data/make_data operate on mujoco.MjModel/MjData of 
 def shard_main(ck, shard, nshards):
   mujoco, mjx, jax, jp = mjxload.load()
   lib = ck.lib('rel')
+  nshards -= 1                       # the last worker runs the known-finding probes (vf/mjx_findings.py)
+  if shard == nshards:
+    from vf import mjx_findings
+    mjx_findings.run_probes(ck, mjx_findings.BY_PROPERTY['C44'])
+    return
   worst = collections.defaultdict(float)
   nA = max(1, -(-ck.budget(3, 48) // nshards))
   nB = max(1, -(-ck.budget(12, 360) // nshards))
@@ -569,7 +574,7 @@ def main(ck):
   ck.rule = RULE
   ck.assumptions = ASSUMPTIONS
   nshards = int(os.environ.get('C44_SHARDS', 3 if ck.quick else 6))
-  extra = mjxshard.run(ck, 'c44', nshards, timeout=(1800 if ck.quick else 5400))
+  extra = mjxshard.run(ck, 'c44', nshards + 1, timeout=(1800 if ck.quick else 5400))   # + 1 probe worker
   worst = mjxshard.merge_max(extra.get('worst', []))
   ck.extra['worst_rel_err_A'] = {k: float('%.3g' % v) for k, v in worst.items()}
   ck.extra['shards'] = nshards
@@ -587,5 +592,6 @@ affordable for the pipeline without collision/constraint/solver (1-2 states per 
 thorough tier; jit-vs-vmap is checked on the full step for every batch member. Unused contact-slot placeholders are ignored in
 make_data vs put_data. Sub-domains where get_data was found not to return the original data are excluded and listed in
 `assumptions` (ne/nf/nl static counts, contacts inside a positive margin, rows with an exactly zero Jacobian, ten_J with a
-structural zero; reproducers: python -m vf.mjx_findings F9 F19 F25); C44_FINDINGS=1 re-enables them. Only impl=jax is covered
+structural zero) and each is probed on its minimal input on every run by an extra worker (vf/mjx_findings.py F8 F9 F19 F20 F22 F25,
+reported through the known-findings mechanism). Only impl=jax is covered
 (warp / cpp back-ends cannot be loaded here). No shrinking; sharded over worker processes; time-budgeted.'''
